@@ -275,6 +275,68 @@ func enumerate(visit func(idx int64, family string, nontrivial bool, mk func() I
 			}
 		}
 	}
+	// many real members behind an inflated count (the count must not be trusted
+	// later either, e.g. when a pre-allocated buffer fills up)
+	for _, typ := range []uint32{2, 3, 4, 5, 6, 7} {
+		for order := 0; order < 2; order++ {
+			for _, members := range []int{31, 32, 33, 40, 300} {
+				for _, cnt := range []uint32{1 << 20, 1 << 22, 1 << 28, 0xffffffff} {
+					typ, order, members, cnt := typ, order, members, cnt
+					emit("wkb-many-members-inflated-count", true, func() Input {
+						little := order == 1
+						var g geom.Geom
+						pt := func(i int) geom.Point { return geom.Point{X: float64(i), Y: float64(-i)} }
+						switch typ {
+						case 2:
+							l := make(geom.LineString, members)
+							for i := range l {
+								l[i] = pt(i)
+							}
+							g = l
+						case 3:
+							p := make(geom.Polygon, members)
+							for i := range p {
+								p[i] = geom.Path{pt(i)}
+							}
+							g = p
+						case 4:
+							m := make(geom.MultiPoint, members)
+							for i := range m {
+								m[i] = pt(i)
+							}
+							g = m
+						case 5:
+							m := make(geom.MultiLineString, members)
+							for i := range m {
+								m[i] = geom.LineString{pt(i)}
+							}
+							g = m
+						case 6:
+							m := make(geom.MultiPolygon, members)
+							for i := range m {
+								m[i] = geom.Polygon{{pt(i)}}
+							}
+							g = m
+						default:
+							m := make(geom.GeometryCollection, members)
+							for i := range m {
+								m[i] = pt(i)
+							}
+							g = m
+						}
+						b, fields, _ := wkbref.Encode(g, func(int) bool { return little })
+						for _, f := range fields {
+							if f.Kind == "count" && f.Elem == 0 {
+								putU32(b[f.Off:], little, cnt)
+								break
+							}
+						}
+						return Input{Dec: "wkb", Data: b}
+					})
+				}
+			}
+		}
+	}
 	var depths []int
 	for d := 1; d <= 64; d++ {
 		depths = append(depths, d)
@@ -591,7 +653,7 @@ func main() {
 	}
 	os.Setenv("VERIF_TIER", tier)
 	r := report.New("C07", tier, "fault_enumeration")
-	r.Rule = "E4: for every valid WKB encoding of the bounded structure-tree corpus (both byte orders): every prefix, every single-bit flip, every count field <- {0,n-1,n+1,2^8,2^16,2^24,2^28,2^31,2^32-1}, every inflated count combined with a truncation at every later offset (double fault), every type code <- 25 foreign values and 1..7, every byte-order flag <- {flipped,2,0xff}; the structural faults again through the hex decoder plus odd length / non-hex character at every position; all byte strings of length <=2, all (order byte, type code) headers, nine-byte inflated-count messages, collections nested to depth 1..64,128,1024,7281; GeoJSON: 12 type spellings x all JSON values of depth<=3(4) over 6 leaves, every prefix of every valid document, deep nesting, typed Geometry values and nil. Oracle: no panic, exactly one of geometry/error, bytes allocated (exact TotalAlloc delta in a single-goroutine worker) <= 256*len+64KiB, success => re-encode/decode fixed point. Non-trivial = every faulted (non-valid-corpus) input."
+	r.Rule = "E4: for every valid WKB encoding of the bounded structure-tree corpus (both byte orders): every prefix, every single-bit flip, every count field <- {0,n-1,n+1,2^8,2^16,2^24,2^28,2^31,2^32-1}, every inflated count combined with a truncation at every later offset (double fault), every type code <- 25 foreign values and 1..7, every byte-order flag <- {flipped,2,0xff}; the structural faults again through the hex decoder plus odd length / non-hex character at every position; all byte strings of length <=2, all (order byte, type code) headers, nine-byte inflated-count messages, 31..300 real members behind an inflated count, collections nested to depth 1..64,128,1024,7281; GeoJSON: 12 type spellings x all JSON values of depth<=3(4) over 6 leaves, every prefix of every valid document, deep nesting, typed Geometry values and nil. Oracle: no panic, exactly one of geometry/error, bytes allocated (exact TotalAlloc delta in a single-goroutine worker) <= 256*len+64KiB, success => re-encode/decode fixed point. Non-trivial = every faulted (non-valid-corpus) input."
 	r.Assumptions = []string{"single faults (plus the count+truncation double fault); inputs are derived from the corpus or from the listed synthetic families", "allocation bound constants 256 B/byte + 64 KiB chosen with >= 4x head-room over the valid corpus (max ratio reported as max_alloc_ratio)"}
 	sum := fault.Sweep(r, 16, 4<<20, 90*time.Second, func(idx int64) (string, interface{}) {
 		var sig string
